@@ -20,7 +20,8 @@ def lexLe : List Nat → List Nat → Bool
 
 def obs (s : St) : List String :=
   [s!"contains {joinSp ((maskSubsets s.nv).map fun t => if mem s.c t then "1" else "0")}",
-   s!"blockers {joinSp (((blockers s.c).mergeSort lexLe).map showS)}"]
+   s!"blockers {joinSp (((blockers s.c).mergeSort lexLe).map showS)}",
+   s!"nverts {(s.c.filter fun t => t.length == 1).length}"]
 
 def step (s : St) (ts : List String) : St × List String :=
   match ts with
@@ -28,7 +29,12 @@ def step (s : St) (ts : List String) : St × List String :=
   | ["adde", a, b] =>
     let e := sortN [natD a, natD b]
     if mem s.c [natD a] && mem s.c [natD b] && natD a != natD b && !mem s.c e then ({ s with c := s.c ++ [e] }, ["adde"]) else (s, ["adde"])
-  | "adds" :: vs => ({ s with c := addClosure s.c (sortN (nats vs)) }, ["adds"])
+  | "adds" :: vs =>
+    -- vertices that do not exist yet are created, together with every label in between (the library numbers vertices consecutively)
+    let w := sortN (nats vs)
+    let top := w.foldl max 0
+    let fresh := (List.range (top + 1)).filter fun v => decide (s.nv ≤ v)
+    ({ nv := max s.nv (top + 1), c := addClosure (s.c ++ fresh.map fun v => [v]) w }, ["adds"])
   | "rmstar" :: vs => ({ s with c := removeStar s.c (sortN (nats vs)) }, ["rmstar"])
   | ["link", a, b] => (s, [s!"link {if linkCondition s.c (natD a) (natD b) then 1 else 0}"])
   | ["contract", a, b] =>
